@@ -45,26 +45,26 @@ import (
 	"github.com/storacha/go-ucanto/transport/car/request"
 	uhttp "github.com/storacha/go-ucanto/transport/http"
 	"github.com/storacha/go-ucanto/ucan"
-	pdm "github.com/storacha/go-ucanto/ucan/datamodel/payload"
 	"github.com/storacha/go-ucanto/ucan/crypto/signature"
+	pdm "github.com/storacha/go-ucanto/ucan/datamodel/payload"
 	"github.com/storacha/go-ucanto/ucan/formatter"
 )
 
 type c18Rec struct {
-	ID      string `json:"id"`
-	Kind    string `json:"kind"` // token | receipt | message | key
-	Payload string `json:"signing_payload,omitempty"`
-	Sig     string `json:"signature_hex,omitempty"`
-	Root    string `json:"root_block_hex,omitempty"`
-	CID     string `json:"cid,omitempty"`
-	Archive string `json:"archive_car_hex,omitempty"`
-	Format  string `json:"formatted,omitempty"`
-	Outcome string `json:"outcome_bytes_hex,omitempty"`
-	Car     string `json:"message_car_hex,omitempty"`
-	KeyStr  string `json:"key_string,omitempty"`
-	DID     string `json:"did,omitempty"`
-	DIDHex  string `json:"did_bytes_hex,omitempty"`
-	Issuer  string `json:"issuer_key,omitempty"`
+	ID      string   `json:"id"`
+	Kind    string   `json:"kind"` // token | receipt | message | key
+	Payload string   `json:"signing_payload,omitempty"`
+	Sig     string   `json:"signature_hex,omitempty"`
+	Root    string   `json:"root_block_hex,omitempty"`
+	CID     string   `json:"cid,omitempty"`
+	Archive string   `json:"archive_car_hex,omitempty"`
+	Format  string   `json:"formatted,omitempty"`
+	Outcome string   `json:"outcome_bytes_hex,omitempty"`
+	Car     string   `json:"message_car_hex,omitempty"`
+	KeyStr  string   `json:"key_string,omitempty"`
+	DID     string   `json:"did,omitempty"`
+	DIDHex  string   `json:"did_bytes_hex,omitempty"`
+	Issuer  string   `json:"issuer_key,omitempty"`
 	Links   []string `json:"links,omitempty"`
 }
 
@@ -126,7 +126,10 @@ func c18Keys() (map[string]principal.Signer, []string, error) {
 var c18Caveats = []func() datamodel.Node{
 	func() datamodel.Node { n, _ := Cav{}.ToIPLD(); return n },
 	func() datamodel.Node { n, _ := Cav{Link: fakeLink(1)}.ToIPLD(); return n },
-	func() datamodel.Node { n, _ := Cav{Max: i64(-9007199254740993), Tag: strp("ünïcödé ✓")}.ToIPLD(); return n },
+	func() datamodel.Node {
+		n, _ := Cav{Max: i64(-9007199254740993), Tag: strp("ünïcödé ✓")}.ToIPLD()
+		return n
+	},
 	func() datamodel.Node {
 		nb := basicnode.Prototype.Map.NewBuilder()
 		ma, _ := nb.BeginMap(4)
